@@ -81,3 +81,44 @@ package jt808
 //@   loop 1 invariant bbound: forall(k, 0, index, 2+k+old(sc(data,k)) <= buflen(buf))
 //@   loop 1 invariant bplain: forall(k, 0, index, !special(old(data[k])) ==> bufat(buf, 1+k+old(sc(data,k))) == old(data[k]))
 //@   loop 1 invariant bpair: forall(k, 0, index, special(old(data[k])) ==> bufat(buf, 1+k+old(sc(data,k))) == 0x7d && bufat(buf, 2+k+old(sc(data,k))) == scode(old(data[k])))
+
+// ---------------------------------------------------------------------------------------------
+// Header layout (C02), from the standard: id(2) attr(2) [version(1) in 2019] bcd(6|10) serial(2) [sum(2) no(2) if bit 13]
+// attr: bit14 version flag, bit13 sub-package flag, bits10..12 encryption (bit10 = RSA), bits0..9 body length.
+// ---------------------------------------------------------------------------------------------
+
+//@ func (*BodyProperty).decode
+//@   requires len: len(data) >= 2
+//@   modifies *p
+//@   ensures C02.attr: p.attribute == be16(data, 0)
+//@   ensures C02.version: p.Version == byte((be16(data, 0) >> 14) & 1)
+//@   ensures C02.bit14: p.bit14 == p.Version
+//@   ensures C02.frag: p.PacketFragmented == byte((be16(data, 0) >> 13) & 1)
+//@   ensures C02.sub: iff(p.isSubPackage, bit(be16(data, 0), 13))
+//@   ensures C02.encrypt: p.EncryptMethod == byte((be16(data, 0) >> 10) & 1)
+//@   ensures C02.len: p.BodyDayaLen == be16(data, 0) & 0x3ff
+
+//@ func (*BodyProperty).encode
+//@   ensures C01.word: result == (uint16(p.bit15) << 15) | (uint16(p.Version) << 14) | (uint16(p.PacketFragmented) << 13) | (uint16(p.EncryptMethod) << 10) | p.BodyDayaLen
+
+//@ spec is2019(d []byte) bool = bit(be16(d, 2), 14)
+//@ spec isfrag(d []byte) bool = bit(be16(d, 2), 13)
+//@ spec hbase(d []byte) int = ite(is2019(d), 17, 12)
+//@ spec hlen(d []byte) int = hbase(d) + ite(isfrag(d), 4, 0)
+//@ spec blen(d []byte) int = int(be16(d, 2) & 0x3ff)
+
+//@ func (*Header).decode
+//@   mode contract
+//@   modifies *h, *h.Property
+//@   ensures C02.iff: iff(result == nil, len(data) >= 4 && len(data) >= hlen(data))
+//@   ensures C02.err: result != nil ==> iserr(result, protocol.ErrHeaderLength2Short)
+//@   ensures C02.id: result == nil ==> h.ID == be16(data, 0)
+//@   ensures C02.attr: result == nil ==> h.Property.attribute == be16(data, 2) && h.Property.BodyDayaLen == be16(data, 2) & 0x3ff
+//@   ensures C02.version: result == nil ==> h.Property.Version == byte((be16(data, 2) >> 14) & 1) && h.Property.PacketFragmented == byte((be16(data, 2) >> 13) & 1) && h.Property.EncryptMethod == byte((be16(data, 2) >> 10) & 1)
+//@   ensures C02.proto: result == nil ==> h.ProtocolVersion == ite(is2019(data), byte(3), byte(2))
+//@   ensures C02.bcd: result == nil ==> ptr(h.bcdTerminalPhoneNo) == ptr(data) + ite(is2019(data), 5, 4) && len(h.bcdTerminalPhoneNo) == ite(is2019(data), 10, 6)
+//@   ensures C02.serial: result == nil ==> h.SerialNumber == be16(data, hbase(data) - 2)
+//@   ensures C02.sum: result == nil ==> h.SubPackageSum == ite(isfrag(data), be16(data, hbase(data)), 0)
+//@   ensures C02.no: result == nil ==> h.SubPackageNo == ite(isfrag(data), be16(data, hbase(data) + 2), 0)
+//@   ensures C02.headEnd: result == nil ==> h.headEnd == hlen(data)
+//@   ensures input: forall(k, 0, len(data), data[k] == old(data[k]))
